@@ -30,6 +30,8 @@ def run(ctx):
         dscommon.run_family(ctx, "C01Extra", fmt="text", fresh=False, always_nontrivial=True)
         dscommon.run_family(ctx, "C01Close", fmt="text", always_nontrivial=True)
         dscommon.run_family(ctx, "C01Close", fmt="netcdf", always_nontrivial=True)
+        # pre-aggregation comes before the comparison of the files: a window that lacks a value in ONE file is no case in ANY file
+        dscommon.run_family(ctx, "C15T", fmt="text", limit=120, always_nontrivial=True)
         # scores of several quantities (obs, fcst, two quantiles): each takes the cases in which every quantity IT uses is present
         from harness.checks import c08
         c08._run(ctx, "quant", "small", limit=500)
@@ -50,6 +52,7 @@ def run(ctx):
         dscommon.run_family(ctx, "C01Extra", fmt="text", fresh=False, always_nontrivial=True)
         dscommon.run_family(ctx, "C01Close", fmt="text", always_nontrivial=True)
         dscommon.run_family(ctx, "C01Close", fmt="netcdf", always_nontrivial=True)
+        dscommon.run_family(ctx, "C15T", fmt="text", always_nontrivial=True)
         from harness.checks import c08
         c08._run(ctx, "quant", "small")
         ctx.exhaustive = True
